@@ -19,6 +19,26 @@ CHECKS = {
             "every byte ever delivered for request i must be a prefix of payload(i); unclean sockets answer with poisoned payloads.",
             "simnet stand-in for sockets and for the readiness poll; alphabet as listed in mc/checks/c03.py.",
             "DESIGN.md §3 C03"),
+    "C12": ("model_checking",
+            "exhaustive enumeration of read-call sequences x response shapes on real HTTPResponse objects (simnet), payload-equality oracle",
+            "For every response spec (payload size x content coding x framing x socket segmentation x decode_content) every sequence of read calls up to the length bound "
+            "(completed by read(7)-until-empty) and every single-API program runs on a fresh real response obtained through HTTPConnection.getresponse(); "
+            "the concatenation must equal the reference payload, sized reads never exceed n, nothing after the end, no empty streamed piece, no exception.",
+            "simnet socket stand-in; reference payloads from the gzip/zlib/zstandard one-shot encoders; brotli absent in this image.",
+            "DESIGN.md §3 C12"),
+    "C13": ("fault_enumeration",
+            "exhaustive fault enumeration (every cut, size-line corruption, bit flip, content cut) x read programs through a real pool (simnet), three-valued reference",
+            "Every truncation point, every single-byte corruption of each chunk-size line, bit flips at every byte of the compressed stream and every content cut inside intact framing, "
+            "each read by every read program through a real pool followed by a second request; an independent reference decides bad / either / ok.",
+            "simnet stand-in; reference chunked de-framer and std decompressobj verdicts in mc/checks/c13.py; 'either' regions documented there.",
+            "DESIGN.md §3 C13"),
+    "C17": ("model_checking",
+            "explicit-state BFS to fixpoint (container, manager) + preemption-bounded schedule exploration of real threads with brute-force linearizability check",
+            "(a) BFS to fixpoint over the real RecentlyUsedContainer vs an LRU reference; (b) all interleavings up to the preemption bound of 2-3 real threads doing container operations, "
+            "each checked for linearizability, dispose-outside-lock and visible size bound; (c) BFS over PoolManager histories on simnet (LRU order, identity, reclamation of evicted pools); "
+            "(d) all bounded interleavings of racing connection_from_url/clear.",
+            "CPython GIL, source-line granularity + lock stand-in operations; SchedRLock checked against threading.RLock at start-up; simnet for sockets.",
+            "DESIGN.md §3 C17"),
     "C16": ("model_checking",
             "explicit-state BFS over real HTTPHeaderDict objects vs reference multimap",
             "All operation sequences to depth 4 (quick) / 5 (thorough) over a 160-operation alphabet are executed on the real class; "
